@@ -92,3 +92,13 @@ def r3_c06(scn, v):
     that republished it: the observed value is one of the candidates the model marks superseded."""
     d = v.detail or {}
     return v.kind in ("task-context-differs", "output-not-from-a-live-terminal-candidate") and d.get("observed_is_superseded_candidate") is True
+
+
+def r26_c02(scn, v):
+    """R26: an action's own `canceled` report moves the workflow to canceling, but a with-items task that
+    still has items to offer stays `running` between batches: status canceling with nothing in flight."""
+    return v.kind == "nothing-in-flight-while-canceling" and "canceled-report-with-unoffered-items" in _events(v)
+
+
+def r26_c03(scn, v):
+    return v.kind == "stuck-in-canceling" and "canceled-report-with-unoffered-items" in _events(v)
